@@ -14,6 +14,8 @@ CONSTANTS
   ParamKeys = {"tax"}
   MaxParamChanges = 1
   Seeded = TRUE
+  Networks = {"main"}
+  Heights0 = {1}
   Defects = {"gate_community_tax"}
 INVARIANT MInv_P
 INVARIANT MInv_Model
